@@ -230,3 +230,32 @@ VARIANTS += [
     ("C11-fromordinal-native", "C11", DATE, "        dt = super().fromordinal(n)\n\n        return cls(dt.year, dt.month, dt.day)", "        return super().fromordinal(n)", "OVERRIDE.returns"),
     ("C11-int-timestamp-nofold", "C11", DT, "            tzinfo=self.tzinfo,\n            fold=self.fold,\n        )\n\n        delta = dt - self._EPOCH", "            tzinfo=self.tzinfo,\n        )\n\n        delta = dt - self._EPOCH", "RECON.state"),
 ]
+
+OLD_START = '''        if unit in ("second", "minute", "hour"):
+            return cast("Self", getattr(self, f"_start_of_{unit}")())
+
+        # The start of a day (or of a larger unit) does not depend on the fold
+        # of the instance: a skipped boundary is resolved forward,
+        # a repeated one to its first occurrence.
+        dt = getattr(self.replace(fold=1), f"_start_of_{unit}")()
+
+        return cast("Self", dt.replace(fold=0))
+'''
+VARIANTS += [
+    ("C12-clean", "C12", None, "", "", None),
+    ("C12-prefix-fold-flow", "C12", DT, OLD_START, '        return cast("Self", getattr(self, f"_start_of_{unit}")())\n', "FOLD.flow"),
+    ("C12-day-in-small", "C12", DT, '        if unit in ("second", "minute", "hour"):\n            return cast("Self", getattr(self, f"_end_of_{unit}")())', '        if unit in ("second", "minute", "hour", "day"):\n            return cast("Self", getattr(self, f"_end_of_{unit}")())', "FOLD.small-units"),
+    ("C12-wrong-pin", "C12", DT, 'dt = getattr(self.replace(fold=0), f"_end_of_{unit}")()', 'dt = getattr(self.replace(fold=1), f"_end_of_{unit}")()', "FOLD.flow"),
+    ("C12-unit-removed", "C12", DT, '        "decade",\n        "century",\n    ]\n\n    _EPOCH', '        "decade",\n        "century",\n        "millennium",\n    ]\n\n    _EPOCH', "DISPATCH.exhaustive"),
+    ("C12-end-minute-58", "C12", DT, "        return self.set(second=59, microsecond=999999)", "        return self.set(second=58, microsecond=999999)", "LATTICE.fields"),
+    ("C12-end-year-30", "C12", DT, "        return self.set(self.year, 12, 31, 23, 59, 59, 999999)", "        return self.set(self.year, 12, 30, 23, 59, 59, 999999)", "LATTICE.fields"),
+    ("C12-start-hour-keeps-min", "C12", DT, "        return self.set(minute=0, second=0, microsecond=0)", "        return self.set(second=0, microsecond=0)", "LATTICE.fields"),
+    ("C12-end-month-31", "C12", DATE, "        return self.set(self.year, self.month, self.days_in_month)", "        return self.set(self.year, self.month, 31)", "LATTICE.fields"),
+    ("C12-decade-off", "C12", DT, "        year = self.year - self.year % YEARS_PER_DECADE + YEARS_PER_DECADE - 1\n\n        return self.set(year, 12, 31, 23, 59, 59, 999999)", "        year = self.year - self.year % YEARS_PER_DECADE + YEARS_PER_DECADE\n\n        return self.set(year, 12, 31, 23, 59, 59, 999999)", "YEAR.form"),
+    ("C12-century-base", "C12", DATE, "        year = self.year - 1 - (self.year - 1) % YEARS_PER_CENTURY + 1\n\n        return self.set(year, 1, 1)", "        year = self.year - self.year % YEARS_PER_CENTURY\n\n        return self.set(year, 1, 1)", "YEAR.form"),
+    ("C12-week-next", "C12", DT, "            dt = self.previous(pendulum._WEEK_STARTS_AT)", "            dt = self.next(pendulum._WEEK_STARTS_AT)", "WEEK.pairing"),
+    ("C12-week-ends-start", "C12", DATE, "        if self.day_of_week != pendulum._WEEK_ENDS_AT:\n            dt = self.next(pendulum._WEEK_ENDS_AT)", "        if self.day_of_week != pendulum._WEEK_STARTS_AT:\n            dt = self.next(pendulum._WEEK_ENDS_AT)", "WEEK.pairing"),
+    ("C12-setter-bound", "C12", HELP, "    if wday < WeekDay.MONDAY or wday > WeekDay.SUNDAY:\n        raise ValueError(\"Invalid day of week\")\n\n    pendulum._WEEK_ENDS_AT = wday", "    if wday < WeekDay.MONDAY:\n        raise ValueError(\"Invalid day of week\")\n\n    pendulum._WEEK_ENDS_AT = wday", "WEEK.setter"),
+    ("C12-start-day-at", "C12", DT, "        return self.at(0, 0, 0, 0)", "        return self.at(0, 0, 0, 1)", "LATTICE.fields"),
+    ("C12-equivalent-refactor", "C12", DT, "        year = self.year - self.year % YEARS_PER_DECADE\n        return self.set(year, 1, 1, 0, 0, 0, 0)", "        year = -(self.year % YEARS_PER_DECADE) + self.year\n        return self.set(year, 1, 1, 0, 0, 0, 0)", None),
+]
